@@ -38,6 +38,15 @@ pub trait Model: Encode + Decode + Clone + PartialEq + std::fmt::Debug {
     fn roundtrip() -> bool {
         true
     }
+    /// for union-like types (derived unions, Option): the number of declared variants
+    fn union_variants() -> Option<usize> {
+        None
+    }
+    /// for ordered collections: does decoding `b` equal "decode the plain entry list, then collect"
+    /// (later duplicate key wins)? `None` for other types
+    fn collection_oracle(_b: &[u8]) -> Option<bool> {
+        None
+    }
     /// sum of `size_of` over this type and the types nested in it (for the allocation monitor)
     fn alloc_coeff() -> usize {
         std::mem::size_of::<Self>()
@@ -256,6 +265,15 @@ impl<T: Model, const N: usize> Model for SmallVec<[T; N]> {
 }
 
 impl<T: Model + Ord> Model for BTreeSet<T> {
+    fn collection_oracle(b: &[u8]) -> Option<bool> {
+        let plain = <Vec<T> as Decode>::from_ssz_bytes(b);
+        let got = <Self as Decode>::from_ssz_bytes(b);
+        Some(match (plain, got) {
+            (Ok(l), Ok(s)) => l.into_iter().collect::<BTreeSet<T>>() == s,
+            (Err(_), Err(_)) => true,
+            _ => false,
+        })
+    }
     fn alloc_coeff() -> usize {
         std::mem::size_of::<Self>() + T::alloc_coeff()
     }
@@ -278,6 +296,21 @@ impl<T: Model + Ord> Model for BTreeSet<T> {
 }
 
 impl<K: Model + Ord, V: Model> Model for BTreeMap<K, V> {
+    fn collection_oracle(b: &[u8]) -> Option<bool> {
+        let plain = <Vec<(K, V)> as Decode>::from_ssz_bytes(b);
+        let got = <Self as Decode>::from_ssz_bytes(b);
+        Some(match (plain, got) {
+            (Ok(l), Ok(m)) => {
+                let mut want = BTreeMap::new();
+                for (k, v) in l {
+                    want.insert(k, v); // a later duplicate key replaces an earlier one
+                }
+                want == m
+            }
+            (Err(_), Err(_)) => true,
+            _ => false,
+        })
+    }
     fn alloc_coeff() -> usize {
         std::mem::size_of::<Self>() + K::alloc_coeff() + V::alloc_coeff()
     }
@@ -309,6 +342,9 @@ impl<K: Model + Ord, V: Model> Model for BTreeMap<K, V> {
 }
 
 impl<T: Model> Model for Option<T> {
+    fn union_variants() -> Option<usize> {
+        Some(2)
+    }
     fn alloc_coeff() -> usize {
         std::mem::size_of::<Self>() + T::alloc_coeff()
     }
@@ -510,6 +546,9 @@ macro_rules! union_enum {
             fn desc() -> String {
                 let v: Vec<String> = vec![$(<$t as $crate::model::Model>::desc()),+];
                 format!("N({})", v.join(","))
+            }
+            fn union_variants() -> Option<usize> {
+                Some([$($i),+].len())
             }
             fn alloc_coeff() -> usize {
                 std::mem::size_of::<Self>() $(+ <$t as $crate::model::Model>::alloc_coeff())+
